@@ -43,6 +43,10 @@ class FuncInfo:
             elif isinstance(d, ast.Attribute):
                 decos.append(d.attr)
         self.decorators = decos
+        # decorators that change what a call does (caches, wrappers): the body alone is not the function's semantics
+        self.opaque_decorators = [ast.unparse(d) for d in node.decorator_list
+                                  if not (isinstance(d, ast.Name) and d.id in ("staticmethod", "classmethod", "property", "abstractmethod"))
+                                  and not (isinstance(d, ast.Attribute) and d.attr in ("setter", "getter", "abstractmethod"))]
         self.is_static = "staticmethod" in decos
         self.is_property = "property" in decos
         self.is_setter = "setter" in decos
